@@ -104,7 +104,7 @@ def pair_case(draw):
     s = draw(_structure(allow_dc=False))
     lv = leaves_of(s)
     va = [_values_for(draw, lf) for lf in lv]
-    muts = [draw(st.sampled_from(["same"] * 5 + ["tweak", "tiny", "append1", "bcast", "recast", "lossy", "fresh"]))
+    muts = [draw(st.sampled_from(["same"] * 5 + ["tweak", "tiny", "append1", "bcast", "recast", "lossy", "fresh", "none_b", "none_ab", "str_ab", "str_diff"]))
             for _ in lv]
     fresh = [_values_for(draw, lf) if m == "fresh" else None for lf, m in zip(lv, muts)]
     pos = [draw(st.integers(0, 1000)) for _ in lv]
@@ -278,12 +278,30 @@ def eval_pair(case):
 
         def conv(x):  # noqa: E731
             return jnp.asarray(x) if x.dtype != np.float64 else x
+    # "leaves that we can call np.asarray(leaf) on ... floats, strings, None etc." (module comment of pytrees.py):
+    # optional (None) and string leaves are part of the documented domain
+    SPECIAL = {"none_b": (False, None), "none_ab": (None, None), "str_ab": ("left", "left"), "str_diff": ("left", "right")}
     la = [mk_np(lf, v) for lf, v in zip(lv, case["a"])]
-    lb = [_mutate(lf, v, m, f, p) for lf, v, m, f, p in zip(lv, case["a"], case["mut"], case["fresh"], case["pos"])]
+    lb = [x if m in SPECIAL else _mutate(lf, v, m, f, p)
+          for x, lf, v, m, f, p in zip(la, lv, case["a"], case["mut"], case["fresh"], case["pos"])]
+    for i, m in enumerate(case["mut"]):
+        if m in SPECIAL:
+            sa, sb = SPECIAL[m]
+            if sa is not False:
+                la[i] = sa
+            lb[i] = sb
+    conv0 = conv
+    conv = lambda x: x if (x is None or isinstance(x, str)) else conv0(x)  # noqa: E731
     ita, itb = iter(la), iter(lb)
     ta = build(s, ita, lambda _l, v: conv(v))
     tb = build(s, itb, lambda _l, v: conv(v))
-    expected = all(x.shape == y.shape and x.tolist() == y.tolist() for x, y in zip(la, lb))
+
+    def leaf_eq(x, y):
+        if x is None or y is None or isinstance(x, str) or isinstance(y, str):
+            return type(x) is type(y) and x == y
+        return x.shape == y.shape and x.tolist() == y.tolist()
+
+    expected = all(leaf_eq(x, y) for x, y in zip(la, lb))
     fails = []
 
     def call(f, *args):
@@ -302,7 +320,8 @@ def eval_pair(case):
         fails.append(("equal.symmetric", "eq(a,b) != eq(b,a)", f"ab={ab} ba={ba}"))
     if ab is not expected:
         fails.append(("equal.value", "expected %s got %s" % (expected, ab),
-                      f"mut={case['mut']} a={[x.tolist() for x in la]} b={[y.tolist() for y in lb]}"))
+                      f"mut={case['mut']} a={[getattr(x, 'tolist', lambda: x)() for x in la]} "
+                      f"b={[getattr(y, 'tolist', lambda: y)() for y in lb]}"))
     _, e1 = call(pytrees.assert_trees_are_different, ta, tb)
     if (e1 is not None) != expected:
         fails.append(("assert_different", "raises=%s but trees equal=%s" % (e1 is not None, expected), f"mut={case['mut']}"))
